@@ -389,7 +389,7 @@ func runC14(pl *plan.Plan, out *plan.Outcome) {
 		return
 	}
 	if res != "done" && out.Trouble == "" {
-		out.Trouble = "run ended: " + res
+		env.runEnded(res, out)
 		return
 	}
 	if sess == nil {
